@@ -211,3 +211,16 @@ package store
 //@ interface store.Store.Stats() (result, err)
 //@ ensures [ledger-total] err == nil ==> result != nil && bigval(result.TotalCredit) == this.total
 //@ modifies clock
+
+// ---- statistics helpers: what counting one record does to the credit total -----------------------
+//@ func (*Stats).CountBalance
+//@ property C01 C12
+//@ requires s != nil
+//@ ensures [adds-the-credit] bigval(s.TotalCredit) == old(bigval(s.TotalCredit)) + bigval(b.Credit) && bigval(s.TotalDeposit) == old(bigval(s.TotalDeposit)) + bigval(b.Deposit)
+//@ modifies s
+
+//@ func (*Stats).CountNode
+//@ property C01 C12
+//@ requires stats != nil
+//@ ensures [credit-untouched] bigval(stats.TotalCredit) == old(bigval(stats.TotalCredit)) && bigval(stats.TotalDeposit) == old(bigval(stats.TotalDeposit))
+//@ modifies stats, clock
